@@ -380,6 +380,21 @@ def _derived_requests(ctx: Context) -> None:
                     if not whole and isinstance(a, ast.Dict):
                         whole = any(k is None and norm(v) == "request.extensions" for k, v in zip(a.keys, a.values)) and \
                             not any(isinstance(k, ast.Constant) and k.value == "timeout" for k in a.keys)
+                    if not whole and isinstance(a, ast.DictComp) and len(a.generators) == 1 and norm(a.generators[0].iter) == "request.extensions.items()" \
+                            and isinstance(a.generators[0].target, ast.Tuple) and len(a.generators[0].target.elts) == 2:
+                        # a filtered copy that keeps the 'timeout' entry as it is (a hop that is given only the keys meant for it)
+                        kn, vn = (norm(x) for x in a.generators[0].target.elts)
+                        keeps = norm(a.key) == kn and norm(a.value) == vn
+                        for cond in a.generators[0].ifs:
+                            okc = False
+                            if isinstance(cond, ast.Compare) and len(cond.ops) == 1 and norm(cond.left) == kn and isinstance(cond.comparators[0], (ast.Tuple, ast.List, ast.Set)):
+                                consts = {e.value for e in cond.comparators[0].elts if isinstance(e, ast.Constant)}
+                                okc = ("timeout" in consts) if isinstance(cond.ops[0], ast.In) else ("timeout" not in consts) if isinstance(cond.ops[0], ast.NotIn) else False
+                            elif isinstance(cond, ast.Compare) and len(cond.ops) == 1 and norm(cond.left) == kn and isinstance(cond.ops[0], ast.NotEq) \
+                                    and isinstance(cond.comparators[0], ast.Constant) and cond.comparators[0].value != "timeout":
+                                okc = True
+                            keeps = keeps and okc
+                        whole = keeps
                     if not whole:
                         bad.append(ast.unparse(a)[:80])
                 rep.ob("C16.R5", key, not bad, where(f, c),
@@ -419,8 +434,22 @@ def run(ctx: Context) -> None:  # noqa: F811
                 gs = [g for g in guards_of(node) if any(x is f.node for x in _anc(g[0]))]
                 # a test of the state the wait is for: a field of the waiting object, compared / tested for presence
                 need = [norm(getattr(t, "_orig", t)) for t, _ in gs if any(isinstance(x, ast.Attribute) and isinstance(x.value, ast.Name) and x.value.id == "self" for x in ast.walk(t))
-                        and not any(isinstance(x, ast.Call) for x in ast.walk(t))]          # a plain state test (`self.connection is None`), not an entry gate that calls something
+                        and not any(isinstance(x, ast.Call) and (x.args or x.keywords) for x in ast.walk(t))]   # a plain state test (`self.connection is None`, `self.is_queued()`), not an entry gate applied to the request
                 ok = bool(need)
+                # or the primitive itself takes the resource without waiting when it is free: its timed scope is entered only after a non-blocking attempt failed
+                if not ok:
+                    def fast_path(t_: FuncInfo) -> bool:
+                        scopes = [w for w in ast.walk(t_.node) if isinstance(w, (ast.With, ast.AsyncWith)) and any("fail_after" in norm(i.context_expr) for i in w.items)]
+                        if not scopes:
+                            return False
+                        for w in scopes:
+                            hs = [a for a in _anc(w) if isinstance(a, ast.ExceptHandler)]
+                            if not any(h.type is not None and "WouldBlock" in ast.unparse(h.type) for h in hs):
+                                return False
+                        return True
+                    if all(fast_path(t_) for t_ in tg):
+                        ok = True
+                        need = ["the primitive tries `acquire_nowait()` first: the timed scope is entered only on WouldBlock"]
                 rep.ob("C16.R6", fkey("async", f, f"pool-wait:{norm(node)[:50]}"), ok, where(f, node),
                        f"`{ast.unparse(node)[:60]}` (can raise PoolTimeout) is entered only when {need[:2]}" if ok else
                        f"`{ast.unparse(node)[:60]}` can raise PoolTimeout and is entered unconditionally: with a pool timeout of 0 the deadline has expired before the primitive's first "
